@@ -15,6 +15,7 @@ import itertools
 
 import egsim  # noqa: F401
 from egsim import engine, gen
+from egsim.props.common import deep_tier
 from egsim.seams import InjectedFault
 from egsim.props.c17 import ARG_POOL, decode_arg
 from edgegraph.structure import singleton
@@ -135,7 +136,8 @@ class C18(engine.Property):
     def make_config(self, rng):
         k = rng.randint(1, len(CLASS_NAMES))
         return {
-            "steps": gen.geometric_steps(rng, 3, 50, 14),
+            "steps": gen.geometric_steps(rng, 3, 50, 14) if not (deep_tier() and rng.random() < 0.25) else gen.geometric_steps(rng, 30, 170, 60),
+            "deep_bounds": True,
             "classes": sorted(rng.sample(CLASS_NAMES, k)),
             "p_clear": rng.choice([0.1, 0.25, 0.4]),
             "p_clear_all": rng.choice([0.0, 0.05, 0.15]),
